@@ -146,7 +146,9 @@ func main() {
 	// one whose key usage does not include signing
 	tsaSelfCA := lib.Mint(nil, lib.CertSpec{CN: "c06-self-signed-tsa-ca", Kind: "tsa-ca", KeyIdx: 3, NotBefore: now.Add(-2900 * day), NotAfter: now.Add(2900 * day)})
 	tsaSelfKU := lib.Mint(nil, lib.CertSpec{CN: "c06-self-signed-tsa-keyusage", Kind: "tsa-keyusage", KeyIdx: 3, NotBefore: now.Add(-2900 * day), NotAfter: now.Add(2900 * day)})
-	tokens := []string{"absent", "good", "wrong-message", "wrong-message-base64url-text-of-the-signature", "wrong-message-hex-text-of-the-signature", "wrong-message-signed-payload", "tsa-self-signed-ca-certificate-as-its-own-anchor", "tsa-self-signed-without-signing-key-usage-as-its-own-anchor", "untrusted-tsa", "tsa-root-in-ca-store-only", "eku-missing", "eku-extra", "eku-non-critical", "tsa-key-usage-without-signing", "tsa-certificate-is-a-ca", "tsa-store-unloadable", "tsa-store-empty", "tsa-certificate-younger-than-the-stamped-time", "tsa-issued-by-a-ca-restricted-to-code-signing", "tsa-revoked", "tsa-unknown", "tsa-validator-error",
+	// a TSA certificate that was valid for years and ran out five days ago (tokens stamped before that remain good - unless the TSA is revoked)
+	tsaRanOut := lib.Mint(tsaRoot, lib.CertSpec{CN: "c06-tsa-ran-out", Kind: "tsa", KeyIdx: 2, NotBefore: now.Add(-2900 * day), NotAfter: now.Add(-5 * day)})
+	tokens := []string{"absent", "good", "tsa-revoked-and-its-certificate-has-since-run-out", "wrong-message", "wrong-message-base64url-text-of-the-signature", "wrong-message-hex-text-of-the-signature", "wrong-message-signed-payload", "tsa-self-signed-ca-certificate-as-its-own-anchor", "tsa-self-signed-without-signing-key-usage-as-its-own-anchor", "untrusted-tsa", "tsa-root-in-ca-store-only", "eku-missing", "eku-extra", "eku-non-critical", "tsa-key-usage-without-signing", "tsa-certificate-is-a-ca", "tsa-store-unloadable", "tsa-store-empty", "tsa-certificate-younger-than-the-stamped-time", "tsa-issued-by-a-ca-restricted-to-code-signing", "tsa-revoked", "tsa-unknown", "tsa-validator-error",
 		"gen-before-windows", "gen-after-windows", "accuracy-straddles-lower-edge", "accuracy-straddles-upper-edge", "accuracy-just-inside-upper-edge", "garbage"}
 	var cases []caseT
 	combos := [][2]string{{lib.MediaJWS, "notary.x509"}, {lib.MediaCOSE, "notary.x509"}, {lib.MediaJWS, "notary.x509.signingAuthority"}, {lib.MediaCOSE, "notary.x509.signingAuthority"}}
@@ -312,6 +314,13 @@ func main() {
 			tokenOK = false
 		case "tsa-revoked":
 			tsRevStatus, tokenOK = "revoked", false
+		case "tsa-revoked-and-its-certificate-has-since-run-out":
+			tsa = &lib.TSA{Key: tsaRanOut.Key, Chain: tsaRanOut.Chain()}
+			spec.NoSigningTimeAttr = true
+			if lo <= -6*day && -6*day <= hi {
+				spec.GenTime = now.Add(-6 * day) // stamped while the TSA certificate was still valid
+			}
+			tsRevStatus, tokenOK = "revoked", false
 		case "tsa-unknown":
 			tsRevStatus, tokenOK = "unknown", false
 		case "tsa-validator-error":
@@ -370,6 +379,8 @@ func main() {
 		}
 		if c.Level >= 0 {
 			L = lib.AllLevelMaps()[c.Level]
+		} else if ci%4 == 1 {
+			L = lib.AllLevelMaps()[(ci/4)%24] // a customised level: every validation type has its own action
 		}
 		if strings.HasPrefix(c.Token, "tsa-") && ci%2 == 1 {
 			L.Rev = "skip" // skipping revocation of the SIGNING chain must not skip the check that the TSA is unrevoked
@@ -417,6 +428,12 @@ func main() {
 			wantFail := c.Expiry == "past"
 			if (e.Error != nil) != wantFail {
 				r.Violation(sigm("expiry"), fmt.Sprintf("%s: expiry validation failed=%v, expiry is %s", id, e.Error != nil, c.Expiry), wit)
+			}
+			if string(e.Action) != L.Exp {
+				r.Violation(sigm("expiry-action"), fmt.Sprintf("%s: the expiry result carries action %q, the level assigns %q to expiry", id, e.Action, L.Exp), wit)
+			}
+			if wantFail && L.Exp == "enforce" && verr == nil {
+				r.Violation(sigm("expired-accepted"), id+": the signature has expired, expiry is enforced, and Verify succeeded", wit)
 			}
 		} else if !strict {
 			r.Violation(sigm("expiry-result-missing"), id+": no expiry result under an all-log level", wit)
